@@ -293,6 +293,14 @@ def _run(case):
             schemas = doc.get("schemas", [doc]) if isinstance(doc, dict) else doc
             if len(schemas) != len(names):
                 v("schema_count", len(names), len(schemas))
+            # "one symbol per entry named by the name template": a schema is named by its $id; and it describes its source entry's parameters
+            ids = [sc.get("$id") if isinstance(sc, dict) else None for sc in schemas]
+            if sorted(map(str, ids)) != sorted(want):
+                v("defined_names_differ", want, ids, missing=",".join(sorted(set(want) - set(map(str, ids)))) or "none", extra=",".join(sorted(set(map(str, ids)) - set(want))) or "none")
+            for n in names:
+                sc = next((x for x in schemas if isinstance(x, dict) and x.get("$id") == case["tpl"].format(name=n)), None)
+                if sc is not None and n in SYMBOLS and sorted(sc.get("properties", {})) != sorted(pn for pn, _ in SYMBOLS[n]):
+                    v("schema_properties_differ", sorted(pn for pn, _ in SYMBOLS[n]), sorted(sc.get("properties", {})), symbol_pos=min(names.index(n), 1))
             return dict(outcome="ok" if not viol else "diff", violations=viol, detail=text[:1500])
         try:
             tree = ast.parse(text)
